@@ -414,7 +414,7 @@ package vuego
 //@ func (t *template) Fill(vars) (r)
 //@   modifies t.stack
 //@   ensures C08+C10.fill.fresh: fresh(t.stack) && len(t.stack.stack) == 1 && fresh(t.stack.stack[0]) && t.stack.rootData == vars
-//@   ensures C08.precedence: forall k string ::
+//@   ensures C07+C08.precedence: forall k string ::
 //@     ((k in t.stack.stack[0]) == ((k in t.frontMatter) || passedHas(vars, k) || (k in t.vue.initialData))) &&
 //@     ((k in t.stack.stack[0]) ==> t.stack.stack[0][k] ==
 //@        ((k in t.frontMatter) ? t.frontMatter[k] : (passedHas(vars, k) ? passedGet(vars, k) : t.vue.initialData[k])))
@@ -713,7 +713,7 @@ package vuego
 //@ func (v *Vue) loadCachedWithFrontMatter(filename) (fm, dom, err)
 //@   unlocked
 //@   modifies contents(v.templateCache), held(&v.templateMu), everyField("html.Node", "Attr"), everyElem("html.Attribute")
-//@   ensures C15.fresh: err == nil && v.templateFS != nil && fileExists(v.templateFS, filename) && curInstant(v.templateFS, filename) != 0 ==>
+//@   ensures C10+C15.fresh: err == nil && v.templateFS != nil && fileExists(v.templateFS, filename) && curInstant(v.templateFS, filename) != 0 ==>
 //@     fm == parsedFM(v.templateFS, filename, curInstant(v.templateFS, filename)) && dom == parsedDom(v.templateFS, filename, curInstant(v.templateFS, filename))
 //@   ensures C15.missing: v.templateFS != nil && !fileExists(v.templateFS, filename) ==> err != nil
 //@   ensures C15.no.partial: err != nil ==> forall f string :: ((f in v.templateCache) == old(f in v.templateCache)) && v.templateCache[f] == old(v.templateCache[f])
